@@ -146,6 +146,8 @@ impl Entry {
     /// It should be safe to call `C::finalize` on the entry after the `guard` is dropped, where `C`
     /// is the associated helper for the linked list.
     pub(crate) unsafe fn delete(&self, guard: &Guard) {
+        #[cfg(feature = "circ_verif")]
+        crate::verif::yp(crate::verif::site::L_DELETE);
         self.next.fetch_or(1, Release, guard);
     }
 }
@@ -177,12 +179,18 @@ impl<T, C: IsElement<T>> List<T, C> {
         // Make a Shared ptr to that Entry.
         let entry_ptr = RawShared::from(entry as *const _);
         // Read the current successor of where we want to insert.
+        #[cfg(feature = "circ_verif")]
+        crate::verif::yp(crate::verif::site::L_INS_LOAD);
         let mut next = to.load(Relaxed, guard);
 
         loop {
             // Set the Entry of the to-be-inserted element to point to the previous successor of
             // `to`.
+            #[cfg(feature = "circ_verif")]
+            crate::verif::yp(crate::verif::site::L_INS_STORE);
             entry.next.store(next, Relaxed);
+            #[cfg(feature = "circ_verif")]
+            crate::verif::yp(crate::verif::site::L_INS_CAS);
             match to.compare_exchange_weak(next, entry_ptr, Release, Relaxed, guard) {
                 Ok(_) => break,
                 // We lost the race or weak CAS failed spuriously. Update the successor and try
@@ -237,6 +245,8 @@ impl<'g, T: 'g, C: IsElement<T>> Iterator for Iter<'g, T, C> {
 
     fn next(&mut self) -> Option<Self::Item> {
         while let Some(c) = unsafe { self.curr.as_ref() } {
+            #[cfg(feature = "circ_verif")]
+            crate::verif::yp(crate::verif::site::L_ITER_NEXT);
             let succ = c.next.load(Acquire, self.guard);
 
             if succ.tag() == 1 {
@@ -248,6 +258,8 @@ impl<'g, T: 'g, C: IsElement<T>> Iterator for Iter<'g, T, C> {
                 debug_assert!(self.curr.tag() == 0);
 
                 // Try to unlink `curr` from the list, and get the new value of `self.pred`.
+                #[cfg(feature = "circ_verif")]
+                crate::verif::yp(crate::verif::site::L_ITER_UNLINK);
                 let succ = match self
                     .pred
                     .compare_exchange(self.curr, succ, Acquire, Acquire, self.guard)
@@ -272,6 +284,8 @@ impl<'g, T: 'g, C: IsElement<T>> Iterator for Iter<'g, T, C> {
                 // If the predecessor node is already marked as deleted, we need to restart from
                 // `head`.
                 if succ.tag() != 0 {
+                    #[cfg(feature = "circ_verif")]
+                    crate::verif::yp(crate::verif::site::L_ITER_RESTART);
                     self.pred = self.head;
                     self.curr = self.head.load(Acquire, self.guard);
 
